@@ -16,6 +16,7 @@ import (
 	"bytes"
 	"encoding/json"
 	"fmt"
+	"io"
 	"os"
 	"os/exec"
 	"runtime/debug"
@@ -57,11 +58,12 @@ type c13Run struct {
 }
 
 type c13Group struct {
-	Ops   []WOp    `json:"ops"`
-	Level int      `json:"logger_level"`
-	Calls []int    `json:"calls"` // severities, the last one is the recovery probe
-	Probe bool     `json:"probe"` // the last call is made after the schedule is over
-	Runs  []c13Run `json:"runs"`
+	Ops    []WOp    `json:"ops"`
+	Level  int      `json:"logger_level"`
+	Calls  []int    `json:"calls"`                   // severities, the last one is the recovery probe
+	Probe  bool     `json:"probe"`                   // the last call is made after the schedule is over
+	Nested bool     `json:"nested_groups,omitempty"` // the added writers of a class are handed over as ONE slog.LWs group
+	Runs   []c13Run `json:"runs"`
 }
 
 type c13Job struct {
@@ -72,6 +74,7 @@ type c13Job struct {
 	CoqPerM  int        `json:"coq_per_mille"` // share of the groups written out as correspondence cases
 	Seed     uint64     `json:"seed"`
 	Trace    bool       `json:"trace"`
+	Nested   bool       `json:"nested"`
 	Explicit []c13Group `json:"explicit,omitempty"` // replay: run exactly these schedules
 }
 
@@ -200,6 +203,14 @@ func c13Fingerprint(e *slog.Entry) string {
 	return fmt.Sprintf("level=%d normal=%v error=%v leveled=%v json=%v color=%v", int(v.Level), widsOf(v.Normal), widsOf(v.Error), lv, v.JSON, v.Color)
 }
 
+// c13Nested: see c13Group.Nested (set per batch in the child)
+var c13Nested bool
+
+// a member of a group of destinations
+type c13Member struct{ io.Writer }
+
+func (c13Member) Close() error { return nil }
+
 type c13Result struct {
 	obs      [][]c13Att
 	payloads [][][]byte
@@ -215,8 +226,30 @@ type c13Result struct {
 func c13RunOnce(ops []WOp, level int, calls []int, probe bool, choices []bool, k int, forever bool) c13Result {
 	res := c13Result{choices: append([]bool(nil), choices...)}
 	e := slog.VerifEntryOf(slog.New("c13"))
-	for _, o := range ops {
-		applyWop(e, o)
+	if c13Nested {
+		// the writers added after the first of a class arrive as one group (as when another logger's
+		// GetWriterBy result is passed on): same destinations, same order
+		var nw, ew slog.LWs
+		for _, o := range ops {
+			switch o.Kind {
+			case "AddW":
+				nw = append(nw, c13Member{pool[o.W]})
+			case "AddE":
+				ew = append(ew, c13Member{pool[o.W]})
+			default:
+				applyWop(e, o)
+			}
+		}
+		if len(nw) > 0 {
+			e.AddWriter(nw)
+		}
+		if len(ew) > 0 {
+			e.AddErrorWriter(ew)
+		}
+	} else {
+		for _, o := range ops {
+			applyWop(e, o)
+		}
 	}
 	e.SetLevel(slog.Level(level)).SetColorMode(false)
 	res.before = c13Fingerprint(e)
@@ -480,6 +513,7 @@ func c13ChildMain(args []string) {
 	var job c13Job
 	must(json.NewDecoder(os.Stdin).Decode(&job))
 	env := c13Setup()
+	c13Nested = job.Nested
 	out := c13Out{Dist: map[string]int{}}
 	rng := &Rng{job.Seed}
 	perKey := map[string]int{}
@@ -490,7 +524,7 @@ func c13ChildMain(args []string) {
 		}
 	}
 	one := func(g *c13Group, choices []bool, forever bool, k int, keep bool) c13Result {
-		single := c13Group{Ops: g.Ops, Level: g.Level, Calls: g.Calls, Probe: g.Probe, Runs: []c13Run{{Sched: choices, Forever: forever}}}
+		single := c13Group{Ops: g.Ops, Level: g.Level, Calls: g.Calls, Probe: g.Probe, Nested: job.Nested, Runs: []c13Run{{Sched: choices, Forever: forever}}}
 		trace(single)
 		res := c13RunOnce(g.Ops, g.Level, g.Calls, g.Probe, choices, k, forever)
 		run := c13Run{Sched: append([]bool{}, res.choices...), Forever: forever, Obs: res.obs}
@@ -544,7 +578,7 @@ func c13ChildMain(args []string) {
 	}
 	if len(job.Explicit) > 0 {
 		for _, g0 := range job.Explicit {
-			g := c13Group{Ops: g0.Ops, Level: g0.Level, Calls: g0.Calls, Probe: g0.Probe}
+			g := c13Group{Ops: g0.Ops, Level: g0.Level, Calls: g0.Calls, Probe: g0.Probe, Nested: job.Nested}
 			nt := false
 			for _, run := range g0.Runs {
 				res := one(&g, run.Sched, run.Forever, len(run.Sched), true)
@@ -555,7 +589,7 @@ func c13ChildMain(args []string) {
 	} else {
 		for _, seq := range job.Seqs {
 			calls := append(append([]int{}, seq...), seq[0])
-			g := c13Group{Ops: job.Ops, Level: job.Level, Calls: calls, Probe: true}
+			g := c13Group{Ops: job.Ops, Level: job.Level, Calls: calls, Probe: true, Nested: job.Nested}
 			keep := rng.Intn(1000) < job.CoqPerM
 			nt := false
 			// depth-first over the decisions the run asks for: every assignment to the first K attempts, once
@@ -723,9 +757,9 @@ func runC13(r *Run) {
 	perM := r.N(100, 80)
 	timeout := time.Duration(r.N(60, 600)) * time.Second
 	var batches []*c13Batch
-	for _, c := range chosen {
-		for _, L := range c13Levels {
-			batches = append(batches, &c13Batch{job: c13Job{Ops: c, Level: L, Seqs: seqs, K: k, CoqPerM: perM, Seed: r.R.U64()}})
+	for ci, c := range chosen {
+		for li, L := range c13Levels {
+			batches = append(batches, &c13Batch{job: c13Job{Ops: c, Level: L, Seqs: seqs, K: k, CoqPerM: perM, Seed: r.R.U64(), Nested: (ci+li)%2 == 1}})
 		}
 	}
 	sem := make(chan struct{}, 14)
@@ -757,14 +791,14 @@ func runC13(r *Run) {
 	r.Extra["exhaustive_space"] = fmt.Sprintf("%d configurations x %d logger levels x %d call sequences (length 1..3 over %d severity classes, plus a recovery probe) x every fail/succeed assignment to the first %d Write attempts (then all succeed) + the schedule on which every attempt fails",
 		len(chosen), len(c13Levels), len(seqs), len(c13Sevs), k)
 	r.Extra["correspondence_sample_per_mille"] = perM
-	r.Rule = "writer sets with 1-3 normal, 1-3 error, 0/1/3 writers for a leveled severity and 0/1/2 for Warn itself (81 configurations; quick: 27 of them) x logger level in {Error, Warn, Info, Always, Off} x every sequence of 1-3 calls over {Info, Error, Warn, leveled OK, registered error-device level 13} followed by a recovery probe x ALL assignments of fail/succeed to the first K Write attempts (K=5 quick, 8 thorough; enumerated depth-first over the attempts that occur, later attempts succeed) plus the every-attempt-fails schedule; each batch in a child process (stack limit, timeout, per-call attempt bound); the direct oracle runs on every schedule, a pseudo-random share of the (configuration, level, sequence) groups goes to the Coq model with all their schedules; non-trivial = at least one Write failed; distinct by construction (configuration, level, severities, schedule are enumerated without repetition)"
+	r.Rule = "writer sets with 1-3 normal, 1-3 error, 0/1/3 writers for a leveled severity and 0/1/2 for Warn itself (81 configurations; quick: 27 of them) x logger level in {Error, Warn, Info, Always, Off} (in every other batch the writers added after the first of the normal / error class are handed over as ONE slog.LWs group, the destinations and their order being the same) x every sequence of 1-3 calls over {Info, Error, Warn, leveled OK, registered error-device level 13} followed by a recovery probe x ALL assignments of fail/succeed to the first K Write attempts (K=5 quick, 8 thorough; enumerated depth-first over the attempts that occur, later attempts succeed) plus the every-attempt-fails schedule; each batch in a child process (stack limit, timeout, per-call attempt bound); the direct oracle runs on every schedule, a pseudo-random share of the (configuration, level, sequence) groups goes to the Coq model with all their schedules; non-trivial = at least one Write failed; distinct by construction (configuration, level, severities, schedule are enumerated without repetition)"
 }
 
 func replayC13(r *Run, file string) {
 	var g c13Group
 	loadReplay(file, &g)
 	r.Coq(c13Header, "case", "ok")
-	job := c13Job{Explicit: []c13Group{g}, Ops: g.Ops, Level: g.Level}
+	job := c13Job{Explicit: []c13Group{g}, Ops: g.Ops, Level: g.Level, Nested: g.Nested}
 	b := &c13Batch{job: job}
 	b.out, b.err, b.log = c13Spawn(job, 120*time.Second)
 	c13Merge(r, b, 120*time.Second)
